@@ -140,6 +140,18 @@ def transfer (interp : Nat → Val → Option Nat) (s dest : Stk) : Stk × Bool 
 
 def readOnly (s : Stk) : Bool := s.flag Gen.flag_ronly
 
+/-- `Stack.Transfer(dest any)`: the new value of `dest` and the result flag. The source is a
+value in the model, so it cannot change; `dest` being the source itself is outside the model. -/
+def Transfer (interp : Nat → Val → Option Nat) (s : Stk) (dest : Val) : Val × Bool :=
+  match dest with
+  | .stk f c xs =>
+    let d : Stk := { cfg := c, xs := xs }
+    if d.readOnly then (dest, false)
+    else
+      let r := s.transfer interp d
+      (.stk f r.1.cfg r.1.xs, r.2)
+  | _ => (dest, false)
+
 end Stk
 
 /-! ## Exported layer: what `Stack.X` does on an initialised instance -/
